@@ -112,8 +112,80 @@ fn constructions(ctx: &Ctx) -> SubOutcome {
     out
 }
 
+/// `rqv ADVDIGEST <seed> <n>`: digests of decoder outcomes on adversarial arrival sequences
+/// (several consecutive rank-deficient prefixes, see c02::adversarial_sequence), one line per
+/// (case, configuration) in the digest program's format. The driver runs it in the release and in
+/// the chk build of this harness; the comparison below treats the two files as group "V".
+pub fn adv_digest(seed: u64, n: u64) {
+    use crate::util::{hex, Sha256};
+    use raptorq::SourceBlockDecoder;
+    println!("# build: std=true debug_assertions={}", cfg!(debug_assertions));
+    let items: Vec<u64> = (0..n).collect();
+    let lines: Vec<String> = {
+        use rayon::prelude::*;
+        items
+            .par_iter()
+            .map(|&i| {
+                let r = crate::util::mix(seed, 0xAD7 + i);
+                let k = crate::c02::adversarial_k(r);
+                let depth = 1 + (r >> 40) % 4;
+                let Some(seq) = crate::c02::adversarial_sequence(k, r, depth as u32) else {
+                    return String::new();
+                };
+                let t = 2usize;
+                let data = make_data(DataClass::Random, r, k as usize * t);
+                let cfg = block_cfg(k as usize, t);
+                let enc = SourceBlockEncoder::new(0, &cfg, &data);
+                let src = enc.source_packets();
+                let pk = |e: u32| if e < k { src[e as usize].clone() } else { enc.repair_packets(e - k, 1).pop().unwrap() };
+                let mut out = String::new();
+                for (name, thr) in [("thr=default", None), ("thr=0", Some(0u32)), ("thr=inf", Some(u32::MAX))] {
+                    let res = catch(|| {
+                        let mut h = Sha256::new();
+                        // one packet per call
+                        let mut d = SourceBlockDecoder::new(0, &cfg, (k as usize * t) as u64);
+                        if let Some(th) = thr {
+                            d.verif_set_sparse_threshold(th);
+                        }
+                        for &e in &seq {
+                            match d.decode(std::iter::once(pk(e))) {
+                                Some(b) => {
+                                    h.update(&[1]);
+                                    h.update(&b);
+                                }
+                                None => h.update(&[0]),
+                            }
+                        }
+                        // every prefix from K symbols on as one batch into a fresh decoder
+                        for cut in k as usize..=seq.len() {
+                            let mut d = SourceBlockDecoder::new(0, &cfg, (k as usize * t) as u64);
+                            if let Some(th) = thr {
+                                d.verif_set_sparse_threshold(th);
+                            }
+                            match d.decode(seq[..cut].iter().map(|&e| pk(e)).collect::<Vec<_>>()) {
+                                Some(b) => {
+                                    h.update(&[1]);
+                                    h.update(&b);
+                                }
+                                None => h.update(&[0]),
+                            }
+                        }
+                        hex(&h.finish())
+                    });
+                    let dg = res.unwrap_or_else(|_| "PANIC".to_string());
+                    out.push_str(&format!("{i} adversarial,{name} 1 {dg}\n"));
+                }
+                out
+            })
+            .collect()
+    };
+    for l in lines {
+        print!("{l}");
+    }
+}
+
 pub fn run(ctx: &Ctx, rep: &mut Report) {
-    rep.rule = "a seeded workload of encode/decode cases: three quarters single-block (K weighted over 1..=60 / ..=200 / 201..=300 (group A) or ..=1000 (group B, release builds only), T in {1, 1..8, 63..66, 1..130, 16, 40..99}, 4-15 repair ESIs from near/uniform/far classes, an erasure pattern with overhead -1..2 so that undecodable sets occur), one quarter object-level (Al in {1,2,4,8}, T <= 40, Z <= 4, N <= 3, F not a multiple of T, 4..9 repair packets per block, shuffled delivery with up to 5 losses, through Encoder/Decoder), is generated once per seed, together with 4 000 default derivations `with_defaults(F, P')` (F log-uniform below 2^40, P' over 1..=65535) and six objects of 5 kB..3 MB encoded through `Encoder::with_defaults` / `EncoderBuilder` (the configuration a build derives on its own is an output too), and run in every configuration: builds {release, chk = release + debug assertions + overflow checks} x {std, no_std}; in the release-std build additionally every forced kernel {default, AVX-512, AVX2, SSSE3, portable} x sparse threshold {0, 250, infinity} on encoder and decoder x plan mode {new (twice: second served by the cache), with_encoding_plan, unplanned}; in the other builds default kernel x 3 thresholds x {new, unplanned}. Oracle (differential): SHA-256 over (all source packets, the repair packets, decode outcome tag, decoded bytes) must be identical for every configuration of every build. In addition, inside the release-std harness, every one of the 477 block sizes K' of Table 2 (and a K just below it in the same row: all K' <= 2000, every 4th above in the quick tier, all in the thorough tier) is built through every construction - unplanned at the default threshold, with_encoding_plan(generate(K)), new() twice (K' <= 3000), unplanned and planned on the forced dense and sparse back-ends (K' <= 1200) - and all must emit identical source packets and identical repair packets (ESI K..K+3, K+5000, 2^24-1). Non-trivial = a case decoded through the solver (a source symbol missing) or a block size compared across constructions; distinct = (case, build, configuration) triples / (K, T) pairs.".into();
+    rep.rule = "a seeded workload of encode/decode cases: three quarters single-block (K weighted over 1..=60 / ..=200 / 201..=300 (group A) or ..=1000 (group B, release builds only), T in {1, 1..8, 63..66, 1..130, 16, 40..99}, 4-15 repair ESIs from near/uniform/far classes, an erasure pattern with overhead -1..2 so that undecodable sets occur), one quarter object-level (Al in {1,2,4,8}, T <= 40, Z <= 4, N <= 3, F not a multiple of T, 4..9 repair packets per block, shuffled delivery with up to 5 losses, through Encoder/Decoder), is generated once per seed, together with 4 000 default derivations `with_defaults(F, P')` (F log-uniform below 2^40, P' over 1..=65535) and six objects of 5 kB..3 MB encoded through `Encoder::with_defaults` / `EncoderBuilder` (the configuration a build derives on its own is an output too), and run in every configuration: builds {release, chk = release + debug assertions + overflow checks} x {std, no_std}; in the release-std build additionally every forced kernel {default, AVX-512, AVX2, SSSE3, portable} x sparse threshold {0, 250, infinity} on encoder and decoder x plan mode {new (twice: second served by the cache), with_encoding_plan, unplanned}; in the other builds default kernel x 3 thresholds x {new, unplanned}. Oracle (differential): SHA-256 over (all source packets, the repair packets, decode outcome tag, decoded bytes) must be identical for every configuration of every build. In addition, inside the release-std harness, every one of the 477 block sizes K' of Table 2 (and a K just below it in the same row: all K' <= 2000, every 4th above in the quick tier, all in the thorough tier) is built through every construction - unplanned at the default threshold, with_encoding_plan(generate(K)), new() twice (K' <= 3000), unplanned and planned on the forced dense and sparse back-ends (K' <= 1200) - and all must emit identical source packets and identical repair packets (ESI K..K+3, K+5000, 2^24-1). Group V: decoder outcomes (one packet per call, and every prefix as one batch into a fresh decoder, at the three sparse thresholds) on arrival sequences constructed with a rank oracle so that several consecutive prefixes of >= K symbols are rank deficient, digested in the release and in the chk build of the harness. Non-trivial = a case decoded through the solver (a source symbol missing) or a block size compared across constructions; distinct = (case, build, configuration) triples / (K, T) pairs.".into();
     rep.assumptions.push("NEON kernels cannot execute on this x86-64 host; 32-bit x86 builds are not installed; no_std builds compile only the portable kernels (a second, hook-free route to them)".into());
     let started = Instant::now();
     let dir = format!("{VERIF_DIR}/logs");
